@@ -21,7 +21,15 @@ RULE = ("seeded random call histories (single / batch / distribution calls, vali
         "(one object per pool entry reused by every call, repeated inside batches, sometimes grown IN PLACE between "
         "calls) or ephemeral (every call on freshly built objects that are dropped afterwards, so object ids are "
         "reused by later circuits); every record is checked against the serialisation of the circuit of ITS call, "
-        "taken at call time.  non-trivial: a history with >=1 rejected and >=1 accepted call and >=2 call kinds; "
+        "taken at call time.  Calls are often SIBLINGS of the previous call (one component changed, or the same request "
+        "again; lists or tuples); pools contain circuits differing in one operation (also float angle vs bound symbol); "
+        "in `poison` histories the caller edits, in place, every object it got back and every list it passed, after "
+        "every call.  kind `pair`: two or three chains alive at once, calls interleaved, each compared with the model "
+        "of a runner that is alone.  SCALE stream (every run): batches of 60..1100 circuits (thorough ..4200) at and "
+        "around round numbers on every chain kind, a long count list wrong in ONE place, sample counts up to 65537 "
+        "(thorough 131073), histories of ~300 (thorough ~1050) mixed calls and of ~300 (thorough ~1100) equal-kind calls in a row, registers of 9..12 qubits on simulators and up "
+        "to 69 on a base runner, circuits of up to 260 (thorough 520) operations / segments, 3 and 4 nested trackers.  "
+        "non-trivial: a history with >=1 rejected and >=1 accepted call and >=2 call kinds; "
         "distinct = distinct canonical JSON of the case")
 TRUSTED = [
     "abstract _run_and_measure of a BaseCircuitRunner subclass: for n>0 returns >= n shots, each a tuple as long as "
@@ -41,6 +49,13 @@ ASSUMPTIONS = [
     "construction, does not change); the model sees every content version of a circuit as its own label",
     "sample counts are Python ints (numpy integers make run_batch_and_measure raise TypeError on len())",
     "the harness BaseCircuitRunner subclass refuses circuits with free symbols with ValueError, like the simulators",
+    "batches and per-circuit counts are passed as lists or tuples (the API says Sequence); in `poison` histories the "
+    "caller edits the objects it got back and the lists it passed only AFTER the call returned and after everything "
+    "was observed (a correct runner cannot notice)",
+    "sizes explored per run are bounded by the SCALE stream of RULE (e.g. batches <= 1100 circuits quick / 4200 "
+    "thorough, counts <= 65537 / 131073, 12 simulated qubits): behaviour that changes only beyond them is not seen",
+    "a distribution request with a sample count on a BaseCircuitRunner subclass must rest on at least that many shots "
+    "obtained from the abstract _run_and_measure during the call (it has no other source of shots)",
     "the tracker's own counters are specified by the property only as: never decrease, unchanged by a rejected call; "
     "their exact increments (+1/+1 single, +len/+1 batch, +0/+0 distribution) are compared with the model only",
 ]
@@ -204,6 +219,9 @@ def _gate(op):
         return C.RX(float(unrat(op[2])))(op[1])
     if k == "RXS":
         return C.RX(sympy.Symbol("theta"))(op[1])
+    if k == "RXB":      # a symbolic gate bound afterwards (`ansatz.bind(params)`): the parameter is a sympy number
+        th = sympy.Symbol("theta")
+        return C.RX(th)(op[1]).bind({th: float(unrat(op[2]))})
     raise AssertionError(k)
 
 
@@ -237,15 +255,46 @@ def _real_calls(c):
     return [p[1] for p in _resolve(c)[1] if p[0] == "call"]
 
 
-def _apply(runner, call, circuits):
+def _poison_meas(meas):
+    """what a caller may do with a result it owns: edit it in place"""
+    meas.bitstrings.clear()
+    meas.bitstrings.append((1,) * 13)
+
+
+def _apply(runner, call, circuits, poison=False):
+    """one public call.  With `poison` the caller afterwards edits IN PLACE everything it owns: the returned
+    Measurements / list / distribution and the lists it passed (a runner that keeps or hands out shared mutable objects
+    is then observed on the later calls of the history)."""
     try:
         if call["op"] == "run":
-            return {"meas": _canon_meas(runner.run_and_measure(circuits[0], call["n"]))}
+            r = runner.run_and_measure(circuits[0], call["n"])
+            out = {"meas": _canon_meas(r)}
+            if poison:
+                _poison_meas(r)
+            return out
         if call["op"] == "batch":
-            ns = list(call["ns"]) if "ns" in call else call["n"]
-            return {"batch": [_canon_meas(x) for x in runner.run_batch_and_measure(circuits, ns)]}
+            as_tuple = call.get("seq") == "tuple"
+            ns = (tuple(call["ns"]) if as_tuple else list(call["ns"])) if "ns" in call else call["n"]
+            cs = tuple(circuits) if as_tuple else list(circuits)
+            r = runner.run_batch_and_measure(cs, ns)
+            out = {"batch": [_canon_meas(x) for x in r]}
+            if poison:
+                for x in r:
+                    _poison_meas(x)
+                if isinstance(r, list):
+                    r.clear()
+                if isinstance(cs, list):
+                    cs.clear()
+                if isinstance(ns, list):
+                    ns[:] = [0] * len(ns)
+                    ns.clear()
+            return out
         if call["op"] == "dist":
-            return {"dist": _canon_dist(runner.get_measurement_outcome_distribution(circuits[0], call.get("n")))}
+            r = runner.get_measurement_outcome_distribution(circuits[0], call.get("n"))
+            out = {"dist": _canon_dist(r)}
+            if poison:
+                r.distribution_dict.clear()
+            return out
     except ValueError:
         return "err:value"
     except TypeError:
@@ -263,64 +312,108 @@ def _serialise(circ):
         return None
 
 
-def _history(c):
-    """Run the history on ONE long-lived runner chain.
+class _Session:
+    """ONE long-lived runner chain and the history of calls made on it, advanced one plan item at a time (so that
+    several sessions can be interleaved in one process: kind "pair").
     persistent mode: one Circuit object per pool entry, reused by every call (the same object may occur several times
       in a batch and across calls; `grow` steps mutate it in place between calls);
     ephemeral mode: every call gets freshly built Circuit objects that are dropped right after the call, so CPython
       hands their addresses to the circuits of later calls (`runner.run_and_measure(ansatz.bind(p), n)` in a loop)."""
-    m = _mods()
-    specs, plan = _resolve(c)
-    ephemeral = bool(c.get("ephemeral"))
-    pool = None if ephemeral else [_build_circuit(sp) for sp in c["pool"]]
-    labels = {}
-    ser = [None] * len(specs)
-    log, chain, spies = [], [], []
-    with tempfile.TemporaryDirectory(prefix="oq_c14_") as td:
-        runner = _build_runner(c["runner"], td, log, labels, chain, spies)
-        trackers = [r for r in chain if isinstance(r, m["Tracker"])]
-        steps = []
-        circuits = []
-        for item in plan:
-            if item[0] == "grow":
-                pool[item[1]].operations.append(_gate(item[2]))      # in place, on the object already submitted
-                continue
-            call, pool_idx = item[1], item[2]
-            lbls = call["cs"] if call["op"] == "batch" else [call["c"]]
-            if ephemeral:
-                del circuits                                         # the previous call's temporaries die here …
-                labels.clear()
-                if c.get("gc"):
-                    gc.collect(0)   # young generation only: a full collection costs ~30 ms with sympy loaded
-                circuits = [_build_circuit(specs[lb]) for lb in lbls]   # … and these take their place
+
+    def __init__(self, c, td):
+        self.m = _mods()
+        self.c = c
+        self.specs, self.plan = _resolve(c)
+        self.ephemeral = bool(c.get("ephemeral"))
+        self.pool = None if self.ephemeral else [_build_circuit(sp) for sp in c["pool"]]
+        self.labels = {}
+        self.ser = [None] * len(self.specs)
+        self.log, self.chain, self.spies = [], [], []
+        self.runner = _build_runner(c["runner"], td, self.log, self.labels, self.chain, self.spies)
+        self.trackers = [r for r in self.chain if isinstance(r, self.m["Tracker"])]
+        self.steps = []
+        self.circuits = []
+        self.pos = 0
+
+    def done(self):
+        return self.pos >= len(self.plan)
+
+    def advance(self):
+        item = self.plan[self.pos]
+        self.pos += 1
+        c, specs, labels = self.c, self.specs, self.labels
+        if item[0] == "grow":
+            self.pool[item[1]].operations.append(_gate(item[2]))      # in place, on the object already submitted
+            return
+        call, pool_idx = item[1], item[2]
+        lbls = call["cs"] if call["op"] == "batch" else [call["c"]]
+        if self.ephemeral:
+            self.circuits = None                                     # the previous call's temporaries die here …
+            labels.clear()
+            if c.get("gc"):
+                gc.collect(0)   # young generation only: a full collection costs ~30 ms with sympy loaded
+            self.circuits = [_build_circuit(specs[lb]) for lb in lbls]   # … and these take their place
+        else:
+            labels.clear()
+            self.circuits = [self.pool[i] for i in pool_idx]
+        circuits = self.circuits
+        for obj, lb in zip(circuits, lbls):
+            labels[id(obj)] = lb
+        memo = {}
+        call_ser = []                                                # the serialised circuits of THIS call
+        for obj in circuits:
+            if id(obj) not in memo:
+                memo[id(obj)] = _serialise(obj)
+            call_ser.append(memo[id(obj)])
+        for lb, sr in zip(lbls, call_ser):
+            self.ser[lb] = sr
+        for sp in self.spies:
+            del sp[:]
+        res = _apply(self.runner, call, circuits, poison=bool(c.get("poison")))
+        files = []
+        for t in self.trackers:
+            if os.path.exists(t.raw_data_file_name):
+                with open(t.raw_data_file_name) as fh:
+                    files.append(json.load(fh))
             else:
-                labels.clear()
-                circuits = [pool[i] for i in pool_idx]
-            for obj, lb in zip(circuits, lbls):
-                labels[id(obj)] = lb
-            call_ser = [_serialise(obj) for obj in circuits]         # the serialised circuits of THIS call
-            for lb, sr in zip(lbls, call_ser):
-                ser[lb] = sr
-            ns_before = list(call["ns"]) if "ns" in call else None
-            for sp in spies:
-                del sp[:]
-            res = _apply(runner, call, circuits)
-            files = []
-            for t in trackers:
-                if os.path.exists(t.raw_data_file_name):
-                    with open(t.raw_data_file_name) as fh:
-                        files.append(json.load(fh))
-                else:
-                    files.append(None)
-            steps.append({"res": res,
-                          "counters": [[r.n_circuits_executed, r.n_jobs_executed] for r in chain],
-                          "files": files, "tape_len": len(log), "call_ser": call_ser,
-                          "inner_returns": [list(sp) for sp in spies],
-                          "pending": [len(t.raw_data) for t in trackers]})
-        del circuits
-        devices = [t.type for t in trackers]
-        classes = [type(r).__name__ for r in chain]
-    return {"steps": steps, "tape": log, "ser": ser, "devices": devices, "classes": classes}
+                files.append(None)
+        self.steps.append({"res": res,
+                           "counters": [[r.n_circuits_executed, r.n_jobs_executed] for r in self.chain],
+                           "files": files, "tape_len": len(self.log), "call_ser": call_ser,
+                           "inner_returns": [list(sp) for sp in self.spies],
+                           "pending": [len(t.raw_data) for t in self.trackers]})
+
+    def finish(self):
+        self.circuits = None
+        return {"steps": self.steps, "tape": self.log, "ser": self.ser, "devices": [t.type for t in self.trackers],
+                "classes": [type(r).__name__ for r in self.chain]}
+
+
+def _history(c):
+    """run the history on one long-lived runner chain"""
+    with tempfile.TemporaryDirectory(prefix="oq_c14_") as td:
+        s = _Session(c, td)
+        while not s.done():
+            s.advance()
+        return s.finish()
+
+
+def _pair(c):
+    """several runner chains alive at the same time, their histories interleaved call by call as `order` says: every
+    chain must behave exactly as if it were alone (nothing may be shared through class or module level state)"""
+    with tempfile.TemporaryDirectory(prefix="oq_c14_") as td:
+        sessions = []
+        for i, h in enumerate(c["hists"]):
+            sub = os.path.join(td, f"chain{i}")
+            os.mkdir(sub)
+            sessions.append(_Session(h, sub))
+        for i in c["order"]:
+            if not sessions[i].done():
+                sessions[i].advance()
+        for s in sessions:
+            while not s.done():
+                s.advance()
+        return {"parts": [s.finish() for s in sessions]}
 
 
 def run_impl(c):
@@ -329,6 +422,8 @@ def run_impl(c):
         k = c["kind"]
         if k == "history":
             return _history(c)
+        if k == "pair":
+            return _pair(c)
         if k == "format":
             return {"res": [int(ch) for ch in format(c["i"], "0" + str(c["n"]) + "b")]}
         if k == "outcome":
@@ -358,19 +453,29 @@ def _model_runner(spec):
     return {"kind": "tracker", "bits": bool(spec["bits"]), "inner": _model_runner(spec["inner"])}
 
 
+def _history_request(c, out):
+    calls = []
+    for call in _real_calls(c):
+        cc = dict(call)
+        cc.pop("seq", None)
+        if cc["op"] == "dist" and cc.get("n") is None:
+            cc.pop("n", None)
+        calls.append(cc)
+    return ("history", {"runner": _model_runner(c["runner"]), "pool": [_abstract(s) for s in _resolve(c)[0]],
+                        "calls": calls, "tape": out["tape"]})
+
+
 def requests(c, out):
     k = c["kind"]
     if k == "history":
         if "steps" not in out:
             return []
-        calls = []
-        for call in _real_calls(c):
-            cc = dict(call)
-            if cc["op"] == "dist" and cc.get("n") is None:
-                cc.pop("n", None)
-            calls.append(cc)
-        return [("history", {"runner": _model_runner(c["runner"]), "pool": [_abstract(s) for s in _resolve(c)[0]],
-                             "calls": calls, "tape": out["tape"]})]
+        return [_history_request(c, out)]
+    if k == "pair":
+        # every chain of the pair is answered by the model of a runner that is ALONE
+        if "parts" not in out:
+            return []
+        return [_history_request(h, o) for h, o in zip(c["hists"], out["parts"])]
     if k == "format":
         return [("format", {"i": c["i"], "n": c["n"]})]
     if k == "outcome":
@@ -414,6 +519,12 @@ def _res_matches(mr, ir, call):
 
 
 def compare(c, out, resp):
+    if c["kind"] == "pair":
+        for i, (h, o, r) in enumerate(zip(c["hists"], out["parts"], resp)):
+            msg = compare(h, o, [r])
+            if msg:
+                return f"runner chain {i} of {len(c['hists'])} interleaved ones: {msg}"
+        return None
     r = resp[0]
     if isinstance(r, dict) and "driver_error" in r:
         return "driver error: " + r["driver_error"]
@@ -433,7 +544,7 @@ def compare(c, out, resp):
     if len(r["steps"]) != len(out["steps"]):
         return "step count differs"
     for i, (ms, st, call) in enumerate(zip(r["steps"], out["steps"], _real_calls(c))):
-        where = f"call #{i} {call}"
+        where = f"call #{i} {_show(call)}"
         if not _res_matches(ms["res"], st["res"], call):
             return f"{where}: result differs: impl {str(st['res'])[:200]} model {str(ms['res'])[:200]}"
         if ms["counters"] != st["counters"]:
@@ -455,6 +566,17 @@ def compare(c, out, resp):
 
 
 # --------------------------------------------------------------------------- oracle (implementation only)
+def _show(call):
+    """a call, printable: long index / count lists are abbreviated"""
+    d = {}
+    for k, v in call.items():
+        if isinstance(v, list) and len(v) > 12:
+            d[k] = f"<{len(v)} entries: {v[:5]}…{v[-3:]}>".replace("'", "")
+        else:
+            d[k] = v
+    return str(d)
+
+
 def _invalid(call):
     """the invalid requests named by the property"""
     if call["op"] == "run":
@@ -527,8 +649,10 @@ def _oracle_history(c, out):
     prev_tape = 0
     all_specs = _resolve(c)[0]
     for i, (call, st) in enumerate(zip(_real_calls(c), out["steps"])):
-        where = (f"call #{i} {call} on {'>'.join(out['classes'])}"
-                 + (" [every call on freshly built circuits that are dropped afterwards]" if c.get("ephemeral") else ""))
+        where = (f"call #{i} {_show(call)} on {'>'.join(out['classes'])}"
+                 + (" [every call on freshly built circuits that are dropped afterwards]" if c.get("ephemeral") else "")
+                 + (" [after every call the caller edits the returned objects and the lists it passed in place]"
+                    if c.get("poison") else ""))
         res, counters = st["res"], st["counters"]
         executed = out["tape"][prev_tape:st["tape_len"]]
         # counters never decrease
@@ -588,6 +712,13 @@ def _oracle_history(c, out):
                 elif bad:
                     fails.append(("zero-width-circuit-tuples" if w == 0 else "bitstring-length",
                                   f"{where}: outcome {tuple(bad[0])} has length {len(bad[0])}, the register has {w} qubits"))
+                # enough shots: a runner built on BaseCircuitRunner has no other source of shots than its abstract
+                # _run_and_measure, so a distribution for n samples must rest on >= n shots obtained from it in this call
+                if leaf["kind"] == "base" and call.get("n") is not None:
+                    got = sum(len(e.get("shots", [])) for e in executed)
+                    if got < call["n"]:
+                        fails.append(("too-few-shots", f"{where}: the distribution was computed from {got} shot(s), "
+                                                       f"{call['n']} requested"))
             if call["op"] == "batch":
                 ns = call["ns"] if "ns" in call else [call["n"]] * len(cs)
                 if "batch" not in res or len(res["batch"]) != len(cs):
@@ -650,6 +781,14 @@ def oracle(c, out):
     k = c["kind"]
     if k == "history":
         return _oracle_history(c, out)
+    if k == "pair":
+        # the property speaks about "any sequence of calls on a runner": what other runners do meanwhile is irrelevant
+        for i, (h, o) in enumerate(zip(c["hists"], out["parts"])):
+            f = _oracle_history(h, o)
+            if f:
+                return (f[0], f"[runner chain {i} of {len(c['hists'])} chains alive at the same time, calls interleaved "
+                              f"in the order {c['order'][:40]}] {f[1]}")
+        return None
     if k == "outcome":
         # every outcome of an n-qubit register is a tuple of n bits, all 2**n of them distinct
         res = out["res"]
@@ -692,6 +831,24 @@ def _temporaries_history():
     return h
 
 
+def _scale_corpus_history():
+    pool = []
+    for i in range(7):
+        ops = [["X", i % 3], ["RX", (i + 1) % 3, _ANGLES[i % 4]]]
+        if i % 2:
+            ops.append(["CNOT", i % 3, (i + 1) % 3])
+        if i == 6:
+            ops.append(["H", 0])
+        pool.append({"n": 3, "ops": ops})
+    calls = []
+    for size in (63, 64, 65, 130):
+        calls.append({"op": "batch", "cs": [(3 * j + size) % 7 for j in range(size)], "ns": [1 + (j % 4) for j in range(size)]})
+    calls.append({"op": "batch", "cs": [j % 7 for j in range(128)], "ns": [1] * 127 + [0]})
+    calls.append({"op": "run", "c": 2, "n": 1})
+    calls.append({"op": "batch", "cs": [(5 * j) % 7 for j in range(128)], "n": 2, "seq": "tuple"})
+    return _hist({"kind": "tracker", "bits": True, "inner": {"kind": "base", "extras": [0, 1], "seed": 9}}, pool, calls)
+
+
 def corpus():
     sym = {"kind": "sim", "all_native": True, "seed": 7}
     dflt = {"kind": "sim", "all_native": False, "seed": 3}
@@ -724,6 +881,32 @@ def corpus():
               [{"op": "run", "c": 0, "n": 2}, {"op": "grow", "c": 0, "gate": ["X", 2]}, {"op": "run", "c": 0, "n": 2},
                {"op": "grow", "c": 0, "gate": ["CNOT", 2, 0]}, {"op": "batch", "cs": [0, 0], "n": 1},
                {"op": "dist", "c": 0, "n": 3}]),
+        # sizes beyond what tests use, on one tracker: batches of 63 / 64 / 65 / 130 distinct requests (seeded C14_r3m2:
+        # records flushed, and thereby overwritten, every 64 pending records), then a small call
+        _scale_corpus_history(),
+        # the caller edits what it got and what it passed, in place, then repeats the request (also as tuples)
+        dict(_hist({"kind": "tracker", "bits": True, "inner": sym}, [bell, {"n": 3, "ops": [["X", 0], ["CNOT", 0, 1]]}],
+                   [{"op": "batch", "cs": [0, 1, 0], "ns": [2, 1, 3]}, {"op": "batch", "cs": [0, 1, 0], "ns": [2, 1, 3]},
+                    {"op": "batch", "cs": [0, 1, 0], "ns": [2, 1, 3], "seq": "tuple"}, {"op": "run", "c": 1, "n": 2},
+                    {"op": "run", "c": 1, "n": 2}, {"op": "run", "c": 1, "n": 3}, {"op": "dist", "c": 1, "n": 3},
+                    {"op": "dist", "c": 1, "n": 3}, {"op": "dist", "c": 0, "n": None}, {"op": "dist", "c": 0, "n": None}]),
+             poison=True),
+        # a float angle and the same angle bound to a symbol: same shape, different serialisation
+        _hist({"kind": "tracker", "bits": False, "inner": base},
+              [{"n": 2, "ops": [["RX", 0, "3/4"], ["H", 1]]}, {"n": 2, "ops": [["RXB", 0, "3/4"], ["H", 1]]},
+               {"n": 2, "ops": [["RX", 0, "1/2"], ["H", 1]]}],
+              [{"op": "run", "c": 0, "n": 2}, {"op": "run", "c": 1, "n": 2}, {"op": "run", "c": 2, "n": 2},
+               {"op": "batch", "cs": [2, 1, 0], "n": 1}, {"op": "dist", "c": 1, "n": 2}]),
+        # two trackers (around two simulators) alive at the same time, calls interleaved
+        {"kind": "pair",
+         "hists": [_hist({"kind": "tracker", "bits": True, "inner": sym}, [bell],
+                         [{"op": "run", "c": 0, "n": 2}, {"op": "batch", "cs": [0, 0], "ns": [1, 2]}, {"op": "run", "c": 0, "n": 0},
+                          {"op": "dist", "c": 0, "n": 2}]),
+                   _hist({"kind": "tracker", "bits": False, "inner": {"kind": "sim", "all_native": True, "seed": 11}},
+                         [{"n": 2, "ops": [["X", 1]]}],
+                         [{"op": "batch", "cs": [0], "n": 3}, {"op": "run", "c": 0, "n": 1}, {"op": "dist", "c": 0, "n": None},
+                          {"op": "batch", "cs": [0, 0], "ns": [1]}])],
+         "order": [0, 1, 1, 0, 0, 1, 0, 1]},
         {"kind": "format", "i": 0, "n": 0},
         {"kind": "outcome", "n": 0},
         {"kind": "segments", "flags": [True, False, False, True]},
@@ -764,7 +947,7 @@ def _gen_circuit(rng, maxw, allow_mp, allow_sym):
 
 def _gen_n(rng, maxn, bad):
     if rng.random() < bad:
-        return rng.choice([0, 0, -1, -3])
+        return rng.choice([0, 0, -1, -3, -(2 ** 40)])
     return rng.choice([1, 1, 2, 3, rng.randrange(1, maxn + 1), maxn])
 
 
@@ -825,23 +1008,96 @@ def _gen_grow(rng, pool):
     return {"op": "grow", "c": i, "gate": gate}
 
 
-def _gen_history(rng, maxw, maxn, maxbatch, maxlen):
+def _variant(rng, spec):
+    """a circuit of the same width and length that differs from `spec` in exactly one operation (or None)"""
+    idx = [i for i, op in enumerate(spec["ops"]) if op[0] in ("H", "X", "RX", "RXB")]
+    if not idx:
+        return None
+    i = rng.choice(idx)
+    op = list(spec["ops"][i])
+    if op[0] in ("H", "X"):
+        op[0] = "X" if op[0] == "H" else "H"
+    elif rng.random() < 0.5:
+        op[2] = rng.choice([a for a in ["1/2", "3/4", "-5/4", "2"] if a != op[2]])
+    else:
+        op[0] = "RXB" if op[0] == "RX" else "RX"        # same angle, once a float, once a bound symbol
+    ops = [list(o) for o in spec["ops"]]
+    ops[i] = op
+    return {"n": spec.get("n"), "ops": ops}
+
+
+def _sibling(rng, prev, npool):
+    """the previous call with exactly one component changed (or repeated unchanged): same circuit with another count,
+    same count on another circuit, a batch reordered / shortened / with a scalar instead of the equal list, the same
+    request through another entry point"""
+    call = json.loads(json.dumps(prev))
+    r = rng.random()
+    if r < 0.25:
+        return call                                           # the very same request again
+    if call["op"] in ("run", "dist"):
+        if r < 0.5 and call.get("n") is not None:
+            call["n"] = call["n"] + rng.choice([1, 1, -1, 2])
+        elif r < 0.7:
+            call["c"] = rng.randrange(npool)
+        elif r < 0.85 and call.get("n") is not None:
+            call["op"] = "dist" if call["op"] == "run" else "run"
+        elif call.get("n") is not None:
+            return {"op": "batch", "cs": [call["c"]], "ns": [call["n"]]}
+        return call
+    cs = call["cs"]
+    if r < 0.4 and cs:
+        call["cs"] = cs[::-1]
+        if "ns" in call and len(call["ns"]) == len(cs) and rng.random() < 0.5:
+            call["ns"] = call["ns"][::-1]
+    elif r < 0.55 and cs:
+        call["cs"][rng.randrange(len(cs))] = rng.randrange(npool)
+    elif r < 0.7:
+        if "ns" in call and call["ns"]:
+            j = rng.randrange(len(call["ns"]))
+            call["ns"][j] += rng.choice([1, -1, 2])
+        elif "n" in call:
+            call["n"] += rng.choice([1, -1, 2])
+    elif r < 0.85:
+        if "n" in call:
+            call["ns"] = [call.pop("n")] * len(cs)            # the scalar written out
+        elif call["ns"] and len(set(call["ns"])) == 1 and len(call["ns"]) == len(cs):
+            call["n"] = call.pop("ns")[0]
+    else:
+        if call.get("seq") == "tuple":
+            call.pop("seq")
+        else:
+            call["seq"] = "tuple"
+    return call
+
+
+def _gen_history(rng, maxw, maxn, maxbatch, maxlen, runner=None, n_calls=None, ephemeral=None):
     """one long-lived runner chain, a history of calls.  Two ways of handing circuits over:
     persistent – one object per pool entry reused by every call (repeats inside a batch and across calls, sometimes
-    grown in place between calls); ephemeral – every call on freshly built temporaries that are dropped afterwards."""
-    runner = _gen_runner(rng)
+    grown in place between calls); ephemeral – every call on freshly built temporaries that are dropped afterwards.
+    Pools contain circuits that differ in one operation only; a call is often the previous call with one component
+    changed; in `poison` histories the caller edits everything it owns in place after every call."""
+    runner = runner or _gen_runner(rng)
     tracked = runner["kind"] == "tracker"
-    ephemeral = rng.random() < (0.5 if tracked else 0.25)
+    if ephemeral is None:
+        ephemeral = rng.random() < (0.5 if tracked else 0.25)
     pool = []
     for _ in range(rng.randrange(3, 7) if ephemeral else rng.randrange(1, 5)):
-        for _try in range(5):
-            sp = _gen_circuit(rng, maxw, allow_mp=not tracked, allow_sym=rng.random() < 0.3)
-            if sp not in pool:
-                break
+        sp = None
+        if pool and rng.random() < 0.35:
+            sp = _variant(rng, rng.choice(pool))
+            if sp in pool:
+                sp = None
+        if sp is None:
+            for _try in range(5):
+                sp = _gen_circuit(rng, maxw, allow_mp=not tracked, allow_sym=rng.random() < 0.3)
+                if sp not in pool:
+                    break
         pool.append(sp)
-    n_calls = rng.randrange(6, 2 * maxlen + 1) if ephemeral else rng.randrange(1, maxlen)
+    if n_calls is None:
+        n_calls = rng.randrange(6, 2 * maxlen + 1) if ephemeral else rng.randrange(1, maxlen)
     calls = []
     view = [dict(sp) for sp in pool]          # current content of every pool entry
+    prev = None
     for _ in range(n_calls):
         if not ephemeral and rng.random() < 0.12:
             g = _gen_grow(rng, view)
@@ -849,12 +1105,345 @@ def _gen_history(rng, maxw, maxn, maxbatch, maxlen):
                 view[g["c"]] = {"n": view[g["c"]].get("n"), "ops": view[g["c"]]["ops"] + [g["gate"]]}
                 calls.append(g)
                 continue
-        calls.append(_gen_call(rng, len(pool), min(maxn, 6) if ephemeral else maxn, maxbatch))
+        if prev is not None and rng.random() < 0.3:
+            call = _sibling(rng, prev, len(pool))
+        else:
+            call = _gen_call(rng, len(pool), min(maxn, 6) if ephemeral else maxn, maxbatch)
+            if call["op"] == "batch" and rng.random() < 0.25:
+                call["seq"] = "tuple"
+        calls.append(call)
+        prev = call
     h = _hist(runner, pool, calls)
     if ephemeral:
         h["ephemeral"] = True
         h["gc"] = rng.random() < 0.3
+    if rng.random() < 0.35:
+        h["poison"] = True
     return h
+
+
+# ---- scale: every size the property quantifies over is also taken far beyond what a hand-written test uses, at and
+# around the round numbers where chunking / flushing / fast paths are put (the property has no size bound)
+_BATCH_LADDER = [63, 64, 65, 99, 100, 101, 127, 128, 129, 199, 200, 201, 255, 256, 257, 499, 500, 501, 511, 512, 513,
+                 999, 1000, 1001, 1023, 1024, 1025]
+_SHOT_LADDER = [255, 256, 257, 999, 1000, 1001, 1023, 1024, 1025, 4095, 4096, 4097, 9999, 10000, 10001,
+                16383, 16384, 16385, 32767, 32768, 32769, 65535, 65536, 65537]
+_OPS_LADDER = [31, 32, 33, 49, 50, 51, 63, 64, 65, 99, 100, 101, 127, 128, 129, 199, 200, 201, 255, 256, 257]
+_ANGLES = ["1/2", "3/4", "-5/4", "2"]
+
+
+def _chain(leaf, *bits):
+    """leaf under len(bits) trackers; bits[0] belongs to the outermost one"""
+    r = leaf
+    for b in reversed(bits):
+        r = {"kind": "tracker", "bits": bool(b), "inner": r}
+    return r
+
+
+def _leaves(rng):
+    return [{"kind": "base", "extras": [rng.randrange(0, 3) for _ in range(rng.randrange(1, 4))], "seed": rng.randrange(1, 2 ** 20)},
+            {"kind": "sim", "all_native": True, "seed": rng.randrange(2 ** 20)},
+            {"kind": "sim", "all_native": False, "seed": rng.randrange(2 ** 20)}]
+
+
+def _distinct_pool(rng, k, maxw, allow_mp):
+    pool = []
+    while len(pool) < k:
+        sp = _gen_circuit(rng, maxw, allow_mp=allow_mp, allow_sym=False)
+        if sp not in pool:
+            pool.append(sp)
+    return pool
+
+
+def _bad_ns(rng, ns):
+    """a per-circuit list that is wrong in ONE place only (first / middle / last / random entry, or its length)"""
+    ns = list(ns)
+    r = rng.random()
+    if r < 0.25 and ns:
+        return ns[:-1]
+    if r < 0.4:
+        return ns + [1]
+    j = rng.choice([0, len(ns) // 2, len(ns) - 1, rng.randrange(len(ns))])
+    ns[j] = rng.choice([0, -1, -(2 ** 40)])
+    return ns
+
+
+def _gen_big_batch(rng, runner, sizes, ephemeral=False):
+    """batches far longer than any test uses, on one long-lived chain; each followed by siblings: the same batch with
+    one bad count somewhere (must be rejected before anything runs), a small call (the file then holds that call)"""
+    tracked = runner["kind"] == "tracker"
+    pool = _distinct_pool(rng, rng.randrange(4, 8), 3, allow_mp=not tracked)
+    calls = []
+    for size in sizes:
+        cs = [rng.randrange(len(pool)) for _ in range(size)]
+        if rng.random() < 0.3:
+            call = {"op": "batch", "cs": cs, "n": rng.choice([1, 2, 3])}
+        else:
+            call = {"op": "batch", "cs": cs, "ns": [rng.choice([1, 1, 2, 3]) for _ in cs]}
+        if rng.random() < 0.3:
+            call["seq"] = "tuple"
+        if rng.random() < 0.3:       # the bad request first: a long list that is wrong in one place
+            calls.append({"op": "batch", "cs": list(cs), "ns": _bad_ns(rng, call.get("ns") or [call["n"]] * size)})
+        calls.append(call)
+        r = rng.random()
+        if r < 0.3:
+            calls.append({"op": "batch", "cs": list(cs), "ns": _bad_ns(rng, call.get("ns") or [call["n"]] * size)})
+        elif r < 0.5:
+            calls.append({"op": "run", "c": rng.randrange(len(pool)), "n": rng.choice([1, 2, 0])})
+        elif r < 0.65:
+            calls.append({"op": "dist", "c": rng.randrange(len(pool)), "n": rng.choice([2, 3, -1])})
+    h = _hist(runner, pool, calls)
+    if ephemeral:
+        h["ephemeral"] = True
+    if rng.random() < 0.3:
+        h["poison"] = True
+    return h
+
+
+def _gen_big_shots(rng, runner, counts, round_robin=False):
+    """sample counts far larger than any test uses, through every entry point (round_robin: the four entry points take
+    turns along the ascending counts, so each of them sees small, middle and the largest ones)"""
+    tracked = runner["kind"] == "tracker"
+    pool = _distinct_pool(rng, 3, 3, allow_mp=not tracked)
+    calls = []
+    off = rng.randrange(4)
+    for i, n in enumerate(counts):
+        c = rng.randrange(len(pool))
+        r = [0.1, 0.5, 0.7, 0.9][(i + off) % 4] if round_robin else rng.random()
+        if r < 0.35:
+            calls.append({"op": "run", "c": c, "n": n})
+        elif r < 0.6:
+            ns = [rng.choice([1, 2, 3]) for _ in range(rng.randrange(1, 4))]
+            ns.insert(rng.randrange(len(ns) + 1), n)
+            calls.append({"op": "batch", "cs": [rng.randrange(len(pool)) for _ in ns], "ns": ns})
+        elif r < 0.8:
+            calls.append({"op": "batch", "cs": [rng.randrange(len(pool)) for _ in range(2)], "n": n})
+        else:
+            calls.append({"op": "dist", "c": c, "n": n})
+        if rng.random() < 0.25:
+            calls.append({"op": rng.choice(["run", "dist"]), "c": c, "n": -n})
+    h = _hist(runner, pool, calls)
+    if rng.random() < 0.3:
+        h["poison"] = True
+    return h
+
+
+def _wide_circuit(rng, w, allow_mp):
+    """single-qubit gates and neighbouring CNOTs only (the symbolic lifting of a far-reaching gate costs seconds)"""
+    ops = []
+    for _ in range(rng.randrange(0, 4)):
+        k = rng.random()
+        q = rng.randrange(w)
+        if k < 0.25 and w >= 2:
+            q = rng.randrange(w - 1)
+            ops.append(["CNOT", q, q + 1] if rng.random() < 0.5 else ["CNOT", q + 1, q])
+        elif k < 0.5:
+            ops.append(["RX", q, rng.choice(_ANGLES)])
+        else:
+            ops.append([rng.choice(["H", "X"]), q])
+    if allow_mp and ops and rng.random() < 0.4:
+        ops.insert(rng.randrange(len(ops) + 1), ["MP"])
+    return {"n": w, "ops": ops}
+
+
+def _gen_wide(rng, runner, widths):
+    """registers wider than any test uses; counts on both sides of the number of basis states"""
+    tracked = runner["kind"] == "tracker"
+    is_sim = _leaf_spec(runner)["kind"] == "sim"
+    pool = []
+    for w in widths:
+        for _try in range(5):
+            sp = _wide_circuit(rng, w, allow_mp=is_sim and not tracked)
+            if sp not in pool:
+                break
+        pool.append(sp)
+    calls = []
+    for i, w in enumerate(widths):
+        over = 2 ** w + rng.randrange(1, 4) if w <= 12 else 5
+        calls.append({"op": "run", "c": i, "n": rng.choice([1, 2, 3])})
+        calls.append({"op": "run", "c": i, "n": over})
+        calls.append({"op": "dist", "c": i, "n": rng.choice([None if is_sim else 2, 3, over, 0])})
+    calls.append({"op": "batch", "cs": list(range(len(widths))) + [0], "ns": [2] * len(widths) + [1]})
+    calls.append({"op": "batch", "cs": list(range(len(widths))), "n": rng.choice([1, -1])})
+    rng.shuffle(calls)
+    return _hist(runner, pool, calls)
+
+
+def _deep_ops(rng, w, length, allow_mp):
+    ops = []
+    for _ in range(length):
+        k = rng.random()
+        if allow_mp and k < 0.35:
+            ops.append(["MP"])
+        elif k < 0.5 and w >= 2:
+            a, b = rng.sample(range(w), 2)
+            ops.append(["CNOT", a, b])
+        elif k < 0.65:
+            ops.append(["RX", rng.randrange(w), rng.choice(_ANGLES)])
+        else:
+            ops.append([rng.choice(["H", "X"]), rng.randrange(w)])
+    return ops
+
+
+def _gen_deep(rng, runner, lengths, light=False):
+    """circuits with far more operations than any test uses (for the default simulator: far more native / non-native
+    segments); the longest one is then grown in place, one gate at a time, across the next round number"""
+    tracked = runner["kind"] == "tracker"
+    allow_mp = _leaf_spec(runner)["kind"] == "sim" and not tracked
+    w = rng.randrange(1, 3)
+    pool = [{"n": w, "ops": _deep_ops(rng, w, n, allow_mp)} for n in lengths]
+    pool.append({"n": w, "ops": [["X", 0]]})
+    calls = []
+    for i in range(len(lengths)):
+        if light:                    # one execution per circuit: the whole ladder of lengths stays cheap
+            calls.append(rng.choice([{"op": "run", "c": i, "n": rng.choice([1, 2])},
+                                     {"op": "batch", "cs": [len(lengths), i], "ns": [1, 2]},
+                                     {"op": "dist", "c": i, "n": 2}]))
+            continue
+        calls.append({"op": "run", "c": i, "n": rng.choice([1, 2])})
+        calls.append({"op": "batch", "cs": [len(lengths), i, i], "ns": [1, 2, 1]})
+        calls.append({"op": "dist", "c": i, "n": rng.choice([2, 0])})
+    last = len(lengths) - 1
+    for _ in range(3):
+        calls.append({"op": "grow", "c": last, "gate": [rng.choice(["H", "X"]), rng.randrange(w)]})
+        calls.append({"op": "run", "c": last, "n": 1})
+    return _hist(runner, pool, calls)
+
+
+def _gen_metronome(rng, runner, op, length):
+    """`length` valid calls of ONE kind in a row on one chain, the counters moving in equal steps: whatever a runner
+    does "every N-th call" / "when a counter reaches N" (N <= length) happens here, and is looked at, for that entry
+    point; a different kind of call every now and then shows what the next call of another kind sees"""
+    tracked = runner["kind"] == "tracker"
+    pool = _distinct_pool(rng, rng.randrange(2, 5), 2, allow_mp=not tracked)
+    calls = []
+    for i in range(length):
+        c = rng.randrange(len(pool))
+        if op == "run":
+            calls.append({"op": "run", "c": c, "n": rng.choice([1, 1, 2])})
+        elif op == "dist":
+            calls.append({"op": "dist", "c": c, "n": rng.choice([1, 2])})
+        else:
+            calls.append({"op": "batch", "cs": [c], "n": 1} if rng.random() < 0.5 else {"op": "batch", "cs": [c], "ns": [rng.choice([1, 2])]})
+        if rng.random() < 0.02:
+            calls.append(rng.choice([{"op": "dist", "c": c, "n": 2}, {"op": "run", "c": c, "n": 0},
+                                     {"op": "batch", "cs": [c, c], "n": 1}, {"op": "run", "c": c, "n": 2}]))
+    return _hist(runner, pool, calls)
+
+
+def _ladder(rng, ladder, lo, hi, k_fixed, k_random):
+    """k_fixed entries of the ladder within [lo, hi] plus k_random arbitrary sizes in that range, ascending"""
+    cand = [x for x in ladder if lo <= x <= hi]
+    pick = rng.sample(cand, min(k_fixed, len(cand)))
+    pick += [rng.randrange(lo, hi + 1) for _ in range(k_random)]
+    return sorted(pick)
+
+
+def _gen_scale(rng, tier):
+    """Per run: the WHOLE ladder of each size once (quick: its lower part plus picks from the rest), on the chain where
+    one call passes through the most code (tracker > base runner for batch lengths: the tracker forwards the whole
+    batch; tracker > simulator for counts and circuit lengths), plus random parts of the ladders and arbitrary sizes
+    on other chain kinds."""
+    big = tier == "thorough"
+    cases = []
+    base, sym, dflt = _leaves(rng)
+    # ---- long batches.  base-class leaf: cheap; simulators: a few milliseconds per circuit
+    if big:
+        full = _BATCH_LADDER + [2047, 2048, 2049, 4095, 4096, 4097]
+    else:
+        full = [x for x in _BATCH_LADDER if x <= 513] + rng.sample([x for x in _BATCH_LADDER if x > 513], 2)
+    full = sorted(full + [rng.randrange(60, 1100) for _ in range(2)])
+    b = rng.random() < 0.5
+    cases.append(_gen_big_batch(rng, _chain(base, b, not b), full))      # one tracker with, one without bitstrings
+    others = (_chain(_leaves(rng)[0], 0, 1), _leaves(rng)[0])
+    for runner in others if big else (rng.choice(others),):
+        cases.append(_gen_big_batch(rng, runner, _ladder(rng, _BATCH_LADDER, 60, 4200 if big else 1100, 9 if big else 5, 2),
+                                    ephemeral=rng.random() < 0.4))
+    sims = (_chain(sym, rng.random() < 0.5), _chain(dflt, 1, 0), rng.choice([sym, dflt]))
+    for runner in sims if big else (sims[0], rng.choice(sims[1:])):
+        sizes = _ladder(rng, _BATCH_LADDER, 60, 520 if big else 140, 4 if big else 2, 1)
+        if 64 not in sizes and 65 not in sizes:
+            sizes = sorted(sizes + [rng.choice([64, 65])])
+        cases.append(_gen_big_batch(rng, runner, sizes))
+    base, sym, dflt = _leaves(rng)
+    # ---- many shots
+    if big:
+        full = _SHOT_LADDER + [100000, 131071, 131072, 131073]
+    else:
+        full = [x for x in _SHOT_LADDER if x <= 10001] + rng.sample([x for x in _SHOT_LADDER if x > 10001], 3)
+    full = sorted(full + [rng.randrange(250, 66000) for _ in range(2)])
+    b = rng.random() < 0.5
+    cases.append(_gen_big_shots(rng, _chain(sym, b), full, round_robin=True))
+    cases.append(_gen_big_shots(rng, _chain(base, not b), full, round_robin=True))
+    others = (_chain(dflt, 1, 1), base, sym, dflt)
+    for runner in others if big else (rng.choice(others),):
+        counts = _ladder(rng, _SHOT_LADDER + [100000, 131072, 131073], 250, 140000 if big else 66000, 8 if big else 4, 2)
+        cases.append(_gen_big_shots(rng, runner, counts))
+    base, sym, dflt = _leaves(rng)
+    # ---- long histories on one chain (thresholds on the number of calls / the running counters)
+    for runner in (_chain(base, 1), _chain(sym, 0), dflt):
+        cases.append(_gen_history(rng, 3, 4, 3, 8, runner=runner, n_calls=rng.randrange(1000, 1100) if big else rng.randrange(260, 340),
+                                  ephemeral=rng.random() < 0.4))
+    base, sym, dflt = _leaves(rng)
+    length = 1100 if big else 300
+    for op in ("run", "dist", "batch"):
+        cases.append(_gen_metronome(rng, _chain(_leaves(rng)[0], rng.random() < 0.5), op, length + rng.randrange(30)))
+    sims = [_chain(sym, 0), dflt, _chain(dflt, 1, 0), sym]
+    rng.shuffle(sims)
+    for runner, op in zip(sims, ("run", "dist", "batch") if big else (rng.choice(["run", "dist", "batch"]),)):
+        cases.append(_gen_metronome(rng, runner, op, length))
+    # ---- wide registers
+    if big:
+        cases.append(_gen_wide(rng, sym, [rng.choice([8, 9]), 10, rng.choice([11, 12])]))
+        cases.append(_gen_wide(rng, _chain(dflt, rng.random() < 0.5), [9, rng.choice([7, 8, 10])]))
+        cases.append(_gen_wide(rng, _leaves(rng)[2], [rng.choice([8, 9]), 10]))
+    else:
+        w = rng.choice([9, 10])
+        cases.append(_gen_wide(rng, sym, [w]))
+        cases.append(_gen_wide(rng, _chain(dflt, rng.random() < 0.5), [19 - w]))
+    cases.append(_gen_wide(rng, _chain(base, 1), [9, 16, 17, 33, 64, 65]))
+    cases.append(_gen_wide(rng, _leaves(rng)[0], [rng.randrange(9, 70) for _ in range(4)]))
+    base, sym, dflt = _leaves(rng)
+    # ---- long circuits
+    full = sorted(_OPS_LADDER + ([511, 512, 513] if big else []) + [rng.randrange(30, 260)])
+    fulls = (_chain(sym, rng.random() < 0.5), dflt)
+    for runner in fulls if big else (rng.choice(fulls),):
+        cases.append(_gen_deep(rng, runner, full, light=True))
+    cases.append(_gen_deep(rng, _chain(base, rng.random() < 0.5), sorted(full + ([1023, 1024, 1025] if big else [])), light=True))
+    base, sym, dflt = _leaves(rng)
+    others = (_chain(dflt, 0), sym, dflt)
+    for runner in others if big else (rng.choice(others),):
+        lengths = _ladder(rng, _OPS_LADDER + [512, 513], 30, 520 if big else 260, 3 if big else 2, 1)
+        cases.append(_gen_deep(rng, runner, lengths, light=not big))
+    # ---- deep chains of wrappers
+    for depth in (3, 4):
+        leaf = rng.choice(_leaves(rng))
+        cases.append(_gen_history(rng, 3, 6, 4, 8, runner=_chain(leaf, *[rng.random() < 0.5 for _ in range(depth)])))
+    return cases
+
+
+def _gen_pair(rng, maxw, maxn, maxbatch, maxlen):
+    """two or three runner chains alive at the same time (usually of the same classes), calls interleaved"""
+    k = 3 if rng.random() < 0.2 else 2
+    first = _gen_runner(rng)
+    if first["kind"] != "tracker" and rng.random() < 0.6:
+        first = _chain(first, rng.random() < 0.5)
+    hists = []
+    for i in range(k):
+        if i == 0 or rng.random() < 0.3:
+            runner = first if i == 0 else _gen_runner(rng)
+        else:
+            runner = json.loads(json.dumps(first))        # same classes, own seeds / record_bitstrings
+            s = runner
+            while s["kind"] == "tracker":
+                if rng.random() < 0.5:
+                    s["bits"] = not s["bits"]
+                s = s["inner"]
+            s["seed"] = rng.randrange(1, 2 ** 20)
+        hists.append(_gen_history(rng, maxw, maxn, maxbatch, maxlen, runner=runner, n_calls=rng.randrange(2, maxlen + 2)))
+    order = [i for i, h in enumerate(hists) for _ in h["calls"]]
+    rng.shuffle(order)
+    return {"kind": "pair", "hists": hists, "order": order}
 
 
 def generate(rng, tier):
@@ -870,6 +1459,9 @@ def generate(rng, tier):
     maxw, maxn, maxbatch = (5, 40, 6) if big else (3, 10, 4)
     for _ in range(2600 if big else 500):
         cases.append(_gen_history(rng, maxw, maxn, maxbatch, 12 if big else 8))
+    for _ in range(250 if big else 60):
+        cases.append(_gen_pair(rng, maxw, maxn, maxbatch, 10 if big else 6))
+    cases.extend(_gen_scale(rng, tier))
     # the malformed stream: histories made of invalid requests only (nothing may ever change)
     for _ in range(300 if big else 80):
         runner = _gen_runner(rng)
@@ -895,6 +1487,8 @@ def generate(rng, tier):
 
 
 def nontrivial(c):
+    if c["kind"] == "pair":
+        return any(nontrivial(h) for h in c["hists"])
     if c["kind"] != "history":
         return False
     calls = _real_calls(c)
@@ -906,6 +1500,10 @@ def nontrivial(c):
 
 def distribution(cases, outs):
     hs = [(c, o) for c, o in zip(cases, outs) if c["kind"] == "history" and isinstance(o, dict) and "steps" in o]
+    pairs = [(c, o) for c, o in zip(cases, outs) if c["kind"] == "pair" and isinstance(o, dict) and "parts" in o]
+    for c, o in pairs:
+        hs.extend(zip(c["hists"], o["parts"]))
+    all_calls = [call for c, _ in hs for call in c["calls"] if call["op"] != "grow"]
     calls = Counter()
     results = Counter()
     runners = Counter()
@@ -931,6 +1529,15 @@ def distribution(cases, outs):
     return {"histories": len(hs), "calls_by_kind": dict(calls), "results": dict(results), "runner_chains": dict(runners),
             "circuits_zero_width": zero_width, "circuits_with_idle_qubits": idle, "circuits_with_non_gate_ops": non_gate,
             "circuits_with_free_symbols": symbolic,
+            "interleaved_runner_groups": len(pairs),
+            "poisoned_histories (caller edits results and argument lists in place)": sum(1 for c, _ in hs if c.get("poison")),
+            "batches_passed_as_tuples": sum(1 for call in all_calls if call.get("seq") == "tuple"),
+            "max_batch_length": max((len(call["cs"]) for call in all_calls if call["op"] == "batch"), default=0),
+            "batches_of_64_or_more": sum(1 for call in all_calls if call["op"] == "batch" and len(call["cs"]) >= 64),
+            "max_sample_count": max([call.get("n") or 0 for call in all_calls] + [n for call in all_calls for n in call.get("ns", [])], default=0),
+            "max_register_width": max((_width(sp) for c, _ in hs for sp in c["pool"]), default=0),
+            "max_operations_in_a_circuit": max((len(sp["ops"]) for c, _ in hs for sp in _resolve(c)[0]), default=0),
+            "max_tracker_nesting": max((o["classes"].count("MeasurementTrackingBackend") for _, o in hs), default=0),
             "ephemeral_histories": sum(1 for c, _ in hs if c.get("ephemeral")),
             "grow_steps": sum(1 for c, _ in hs for call in c["calls"] if call["op"] == "grow"),
             "max_history_length": max((len(c["calls"]) for c, _ in hs), default=0)}
